@@ -16,7 +16,11 @@ pub(crate) use quantity_arg;
 
 macro_rules! scalar_arg {
     ($args:ident) => {
-        quantity_arg!($args).as_scalar().unwrap()
+        // Not an `unwrap`: the static type of the argument can be wrong for the dimension-polymorphic
+        // literals `inf` and `NaN` (`sin(inf m)`).
+        quantity_arg!($args)
+            .as_scalar()
+            .map_err(|e| Box::new($crate::interpreter::RuntimeErrorKind::QuantityError(e)))?
     };
 }
 pub(crate) use scalar_arg;
